@@ -113,6 +113,11 @@ func NameIn(name string, pats ...string) bool {
 // (the literal node itself is visited).
 func (f *Func) Walk(fn func(n ast.Node) bool) {
 	walkOwn(f.Body, fn)
+	for _, s := range f.inlined {
+		if !s.spawned {
+			s.h.Walk(fn)
+		}
+	}
 }
 
 func walkOwn(root ast.Node, fn func(n ast.Node) bool) {
@@ -138,6 +143,14 @@ func (f *Func) WalkDeep(fn func(n ast.Node) bool) {
 		}
 		return fn(n)
 	})
+	for _, s := range f.allInlineSites() {
+		ast.Inspect(s.h.Body, func(n ast.Node) bool {
+			if n == nil {
+				return true
+			}
+			return fn(n)
+		})
+	}
 }
 
 // Calls returns the calls in f's own body whose callee name matches.
@@ -205,6 +218,7 @@ func (p *Prog) UsesOf(obj types.Object) []Site {
 }
 
 func sameObj(a, b types.Object) bool {
+	a, b = Rep(a), Rep(b)
 	if a == b {
 		return true
 	}
@@ -226,9 +240,9 @@ func ObjOf(info *types.Info, e ast.Expr) types.Object {
 	switch x := Unparen(e).(type) {
 	case *ast.Ident:
 		if o := info.Uses[x]; o != nil {
-			return o
+			return Rep(o)
 		}
-		return info.Defs[x]
+		return Rep(info.Defs[x])
 	case *ast.SelectorExpr:
 		if sel, ok := info.Selections[x]; ok {
 			return sel.Obj()
